@@ -84,10 +84,16 @@ def cases(tier):
         if "pts" in b or "vox" in b or "poly" in b:
             for rl in (["perm"] if b["cls"].startswith("Convex") else ["shift", "relabel", "frev"] if b["cls"] == "Polyhedron" else ["shift"]):
                 out.append({"base": b, "g": {"relabel": rl}})
+            if b["cls"] in ("ConvexPolygon", "ConvexSpheropolygon", "ConvexPolyhedron", "ConvexSpheropolyhedron"):
+                # "permuting the input vertices of a convex shape": every order for <= 5 vertices (includes the
+                # star orders of a pentagon), a generator closure otherwise
+                k = len(b["poly"]) if "poly" in b else len(b["pts"])
+                for o in A.all_orders(k)[1:]:
+                    out.append({"base": b, "g": {"relabel": "order", "order": list(o)}})
     return out
 
 
-def build(b, pl, relabel=None):
+def build(b, pl, relabel=None, order=None):
     """-> (object, float vertices or None).  Built from lattice data through the placement."""
     from coxeter import shapes as S
 
@@ -107,6 +113,9 @@ def build(b, pl, relabel=None):
         nrm = R @ np.array([0.0, 0.0, o])
         if relabel == "perm":
             F = F[[1, 0] + list(range(2, len(F)))]
+        if relabel == "order":
+            # keep the normal defined by the original cycle: it is passed explicitly below
+            F = F[list(order)]
         if cls == "Polygon":
             return S.Polygon(F.copy(), normal=nrm), F
         if cls == "ConvexPolygon":
@@ -120,6 +129,9 @@ def build(b, pl, relabel=None):
         P = [tuple(p) for p in b["pts"]]
         faces = [list(ext) for _, _, _, ext in X.hull_facets(P)]
     k = len(P)
+    if relabel == "order":
+        P = [P[i] for i in order]
+        faces = None
     if relabel in ("perm", "relabel"):
         perm = [(i + 1) % k for i in range(k)]  # old index i -> new index perm[i]
         newP = [None] * k
@@ -222,7 +234,7 @@ def run_case(case):
         relabel = g.get("relabel")
         pl = g.get("pl", ident)
         try:
-            y, Fy = build(b, pl, relabel)
+            y, Fy = build(b, pl, relabel, g.get("order"))
         except Exception as ex:
             rep.violation("covariance", cls, "__init__", "valid-shape-became-error:" + type(ex).__name__, case, "the base shape constructs, but its image under %s raises %r" % (g, ex))
             return rep
